@@ -57,6 +57,11 @@ fn leaves() -> Vec<V> {
         V::Int(-7),
         V::Float(1.0),
         V::Float(0.5),
+        // different numbers that agree in their first seven digits / differ in the last bit
+        V::Float(1.00000001),
+        V::Float(0.5000000000000001),
+        V::Float(16777217.0),
+        V::Int(16777216),
         V::Char('a'),
         V::Char('é'),
         V::Byte(97),
@@ -467,7 +472,7 @@ pub fn run(ctx: &Ctx) -> (Acc, String, bool) {
         }
     });
     let rule = format!(
-        "exhaustive: all ordered pairs of {} values (27 leaves of 14 kinds + every pair/list/concatenation of width <= 2 over 9 base values), Equal and NotEqual on both stores, under a sentinel operand; random: {} trees of depth <= {} each paired with an identical copy / a reshaped equivalent (list<->concatenation regrouping, char<->1-char list, int<->float) / a one-point mutant / an unrelated tree, four construction orders (fresh, right-first, shared sub-values, junk in between), every eighth case a value that holds one shared sub-value twice or three times (against its flat spelling, the single value, a longer repetition), both operand orders, plus a third reshaped value for transitivity. Distinct = distinct (a,b) value pairs.",
+        "exhaustive: all ordered pairs of {} values (31 leaves of 14 kinds + every pair/list/concatenation of width <= 2 over 9 base values), Equal and NotEqual on both stores, under a sentinel operand; random: {} trees of depth <= {} each paired with an identical copy / a reshaped equivalent (list<->concatenation regrouping, char<->1-char list, int<->float) / a one-point mutant / an unrelated tree, four construction orders (fresh, right-first, shared sub-values, junk in between), every eighth case a value that holds one shared sub-value twice or three times (against its flat spelling, the single value, a longer repetition), both operand orders, plus a third reshaped value for transitivity. Distinct = distinct (a,b) value pairs.",
         n1, random_total, depth
     );
     (acc, rule, false)
